@@ -476,6 +476,105 @@ func C08Exhaustive() []C08Case {
 			}
 		}
 	}
+	out = append(out, c08TypedefCases()...)
+	return out
+}
+
+// c08TypedefCases: targets whose TYPE carries a default / units (typedef local, chained two levels,
+// imported).  The type's default is not the node's default statement: `deviate add { default }` is
+// legitimate on such a leaf without own default, `deviate delete { default <typedef value> }` has
+// nothing to delete.  Accessors that fall back to the type (Entry.SingleDefaultValue, DefaultValues,
+// which also look at mandatory / min-elements) must not be what the deviation logic reads.
+func c08TypedefCases() []C08Case {
+	var out []C08Case
+	cText := "module c {\n  namespace \"urn:c\";\n  prefix c;\n  typedef tdi { type string; default idv; units iu; }\n}\n"
+	base := func(target string) string {
+		return "module b {\n  namespace \"urn:b\";\n  prefix b;\n  import c { prefix c; }\n" +
+			"  typedef td1 { type string; default tdv; units tu; }\n  typedef td2 { type td1; }\n" +
+			"  leaf s0 { type td1; }\n  leaf-list s1 { type td2; }\n" + target +
+			"  leaf s2 { type c:tdi; mandatory true; }\n  container s3 { leaf y { type td2; units keep; } }\n}\n"
+	}
+	one := func(combo, target string, stmts []DevStmt) {
+		devs := []Deviation{{Module: "dv", Arg: "/b:t", Target: "/b/t", TargetMod: "b", Stmts: stmts}}
+		c := C08Case{Label: combo, Combo: combo, BaseNames: []string{"c.yang", "b.yang"}, BaseTexts: []string{cText, base(target)},
+			Devs: devs, DevMods: []string{"dv"}}
+		c.DevNames = []string{"dv.yang"}
+		c.DevTexts = []string{devModuleText("dv", [][2]string{{"b", "b"}}, devs)}
+		out = append(out, c)
+	}
+	st := func(kind, p, v string) DevStmt {
+		s := NewDevStmt(kind)
+		s.Set(p, v)
+		return s
+	}
+	types := []struct{ name, def, units string }{{"td1", "tdv", "tu"}, {"td2", "tdv", "tu"}, {"c:tdi", "idv", "iu"}}
+	for _, ty := range types {
+		tn := strings.ReplaceAll(ty.name, ":", "_")
+		// leaf: own default or none x mandatory
+		for _, own := range []string{"", "own"} {
+			for _, mand := range []string{"", "true", "false"} {
+				if own != "" && mand == "true" {
+					continue
+				}
+				target := "  leaf t {\n    type " + ty.name + ";\n"
+				if own != "" {
+					target += "    default " + own + ";\n"
+				}
+				if mand != "" {
+					target += "    mandatory " + mand + ";\n"
+				}
+				target += "  }\n"
+				tag := fmt.Sprintf("typedef-default/leaf/%s/own=%s/mandatory=%s", tn, own, mand)
+				one(tag+"/add", target, []DevStmt{st("add", "default", "x")})
+				one(tag+"/replace", target, []DevStmt{st("replace", "default", "x")})
+				one(tag+"/delete-type-value", target, []DevStmt{st("delete", "default", ty.def)})
+				one(tag+"/delete-other", target, []DevStmt{st("delete", "default", "zz")})
+				if own != "" {
+					one(tag+"/delete-own", target, []DevStmt{st("delete", "default", own)})
+					one(tag+"/delete-own-then-add", target, []DevStmt{st("delete", "default", own), st("add", "default", "x")})
+					one(tag+"/delete-own-then-delete-type-value", target, []DevStmt{st("delete", "default", own), st("delete", "default", ty.def)})
+				} else {
+					one(tag+"/add-then-delete", target, []DevStmt{st("add", "default", "x"), st("delete", "default", "x")})
+					one(tag+"/add-type-value-then-add", target, []DevStmt{st("add", "default", ty.def), st("add", "default", "x")})
+				}
+			}
+		}
+		// leaf-list: the type's default counts for DefaultValues() only when min-elements is 0
+		for _, mn := range []string{"", "0", "1"} {
+			for _, own := range []bool{false, true} {
+				target := "  leaf-list t {\n    type " + ty.name + ";\n"
+				if mn != "" {
+					target += "    min-elements " + mn + ";\n"
+				}
+				if own {
+					target += "    default a;\n    default b;\n"
+				}
+				target += "  }\n"
+				tag := fmt.Sprintf("typedef-default/leaf-list/%s/own=%v/min=%s", tn, own, mn)
+				one(tag+"/add", target, []DevStmt{st("add", "default", "x")})
+				one(tag+"/add-type-value", target, []DevStmt{st("add", "default", ty.def)})
+				one(tag+"/replace", target, []DevStmt{st("replace", "default", "x")})
+				one(tag+"/delete-type-value", target, []DevStmt{st("delete", "default", ty.def)})
+				one(tag+"/delete-a", target, []DevStmt{st("delete", "default", "a")})
+				one(tag+"/delete-min-0", target, []DevStmt{st("delete", "min-elements", "0")})
+				one(tag+"/replace-min-1-then-add", target, []DevStmt{st("replace", "min-elements", "1"), st("add", "default", "x")})
+			}
+		}
+		// units: the type's units are not the node's units statement either
+		for _, own := range []string{"", "lu"} {
+			target := "  leaf t {\n    type " + ty.name + ";\n"
+			if own != "" {
+				target += "    units " + own + ";\n"
+			}
+			target += "  }\n"
+			tag := fmt.Sprintf("typedef-units/leaf/%s/own=%s", tn, own)
+			one(tag+"/add", target, []DevStmt{st("add", "units", "u1")})
+			one(tag+"/replace", target, []DevStmt{st("replace", "units", "u1")})
+			one(tag+"/delete-type-value", target, []DevStmt{st("delete", "units", ty.units)})
+			one(tag+"/delete-own", target, []DevStmt{st("delete", "units", "lu")})
+			one(tag+"/add-then-add", target, []DevStmt{st("add", "units", "u1"), st("add", "units", "u2")})
+		}
+	}
 	return out
 }
 
@@ -531,6 +630,7 @@ func C08Random(r *rand.Rand) C08Case {
 		ConfigStmts: true, Notification: true, Typedefs: true, Revisions: true}
 	set := Generate(r, cfg)
 	g := &genr{r: r, cfg: cfg}
+	c08AddTypedefDefaults(g, set)
 	c := C08Case{Label: "random"}
 	c.BaseNames, c.BaseTexts = set.Files()
 	var imports [][2]string
@@ -709,4 +809,57 @@ func (g *genr) c08Stmt(kw string, n *Node) DevStmt {
 		s.Set(p, v)
 	}
 	return s
+}
+
+// c08AddTypedefDefaults gives every (sub)module of the set two typedefs that carry a default and
+// units (zd_<module>, and zc_<module> derived from it) and makes about a third of the leaves and
+// leaf-lists written directly in a module body (not inside groupings or augments) use them, or the
+// typedef of an imported module: the type then has a default that the node itself does not state.
+func c08AddTypedefDefaults(g *genr, set *Set) {
+	tdName := func(m *Module) string { return "zd_" + strings.ReplaceAll(m.Name, "-", "_") }
+	done := map[*Node]bool{}
+	for _, m := range set.Mods {
+		n1 := tdName(m)
+		n2 := "zc_" + strings.ReplaceAll(m.Name, "-", "_")
+		td := &Node{Kw: "typedef", Arg: n1}
+		td.add("type", "string")
+		td.add("default", "d1")
+		td.add("units", "u1")
+		tc := &Node{Kw: "typedef", Arg: n2}
+		tc.add("type", n1)
+		m.Body.Kids = append([]*Node{td, tc}, m.Body.Kids...)
+		refs := []string{n1, n2, m.Prefix + ":" + n1}
+		for _, o := range m.Imports {
+			if !o.Sub {
+				refs = append(refs, m.ImportPrefix[o]+":"+tdName(o))
+			}
+		}
+		var walk func(n *Node)
+		walk = func(n *Node) {
+			for _, k := range n.Kids {
+				switch k.Kw {
+				case "grouping", "augment", "typedef", "uses":
+					continue
+				case "leaf", "leaf-list":
+					// (the second revision of a module shares its statements with the first: once is enough,
+					// and both revisions have the typedefs)
+					if done[k] || k.Arg == "k" {
+						continue
+					}
+					done[k] = true
+					if g.chance(0.35) {
+						for _, t := range k.Kids {
+							if t.Kw == "type" {
+								t.Arg = refs[g.r.Intn(len(refs))]
+								t.Kids = nil
+							}
+						}
+					}
+				default:
+					walk(k)
+				}
+			}
+		}
+		walk(m.Body)
+	}
 }
